@@ -7,6 +7,8 @@ import json, os, shutil, subprocess, sys, tempfile
 from concurrent.futures import ThreadPoolExecutor
 
 SRC = sys.argv[1] if len(sys.argv) > 1 else "/tmp/seeds"
+OFFSET = int(sys.argv[2]) if len(sys.argv) > 2 else 0        # round 2: stored as <prop>-(k+3)
+ONLY = sys.argv[3:]                                            # optional property ids
 DST = "/verif/seeded"
 PY = "/venv/bin/python"
 
@@ -50,6 +52,8 @@ def one(pid, k):
 
 jobs = []
 for pid in sorted(os.listdir(SRC)):
+    if ONLY and pid not in ONLY:
+        continue
     pd = os.path.join(SRC, pid)
     if not os.path.isdir(pd):
         continue
@@ -61,7 +65,7 @@ with ThreadPoolExecutor(8) as ex:
 for pid, k, status, res in results:
     print(pid, k, status, res.get("tests_tail", ""), res.get("demo_patched_out", "")[:100].replace("\n", " "))
     if status == "OK":
-        out = os.path.join(DST, "%s-%s" % (pid, k))
+        out = os.path.join(DST, "%s-%d" % (pid, int(k) + OFFSET))
         os.makedirs(out, exist_ok=True)
         for f in ("patch.diff", "demo.py"):
             shutil.copy(os.path.join(SRC, pid, k, f), os.path.join(out, f))
